@@ -132,6 +132,33 @@ OkFrame(e) ==
                /\ e.o.lens = FrChannelsLens(x) /\ e.o.fused
                /\ SeqIs(f, e.o.refs, FrChannels(x)) /\ SeqIs(f, e.o.rev, FrChannelsRev(x))
                /\ e.o.rlen = << n, n >> /\ e.o.cn = n
+       [] e.ev = "f_iter" ->                      \* the channel iterators as iterators: Frames.tla, ItFront / ItBack / ItOp
+            /\ WFSeq(f, e.a.x, n) /\ WF(f, e.a.v)
+            /\ e.a.it \in {"val", "ref", "mut"} /\ e.a.k \in Nat /\ e.a.kb \in Nat /\ e.a.j \in Nat
+            /\ e.a.op \in (IF e.a.it = "val" THEN ItFwdOps ELSE ItFwdOps \cup ItBackOps)      \* channels() is not double-ended
+            /\ (e.a.it = "val" => e.a.kb = 0) /\ (e.a.op = "step_by" => e.a.j >= 1)
+            /\ LET x == FVal(f, e.a.x) v == SVal(f, e.a.v)
+                   \* the model runs on channel POSITIONS 1..n (so that the writes through channels_mut can be placed);
+                   \* the value an item must have is the channel at that position
+                   A == ItFront([c \in 1..n |-> c], e.a.k)      \* k times next()
+                   B == ItBack(A.rem, e.a.kb)                   \* kb times next_back()
+                   R == ItOp(e.a.op, e.a.j, B.rem)              \* the call
+                   At(ps) == [c \in 1..Len(ps) |-> x[ps[c]]]
+                   \* size_hint: channels_ref / channels_mut are held to the exact size; channels() to a correct bound
+                   \* (the pinned code leaves it at the default (0, None) although it is an ExactSizeIterator)
+                   HintOk(h, m) == IF e.a.it = "val" THEN h[1] <= m /\ (h[2] = -1 \/ h[2] >= m) ELSE h = << m, m >>
+               IN /\ e.r.k = "items" /\ SeqIs(f, e.r.v, At(R.items))
+                  /\ SeqIs(f, e.o.pre, At(A.got)) /\ SeqIs(f, e.o.preb, At(B.got))
+                  /\ e.o.cnt = R.cnt /\ e.o.cn = n
+                  /\ Len(e.o.len) = 3 /\ Len(e.o.sh) = 3               \* len() / size_hint(): fresh, after the prefix, after the call
+                  /\ e.o.len[1] = n /\ HintOk(e.o.sh[1], n)
+                  /\ e.o.len[2] = Len(B.rem) /\ HintOk(e.o.sh[2], Len(B.rem))
+                  /\ (R.alive => e.o.len[3] = Len(R.rem) /\ HintOk(e.o.sh[3], Len(R.rem)))
+                  /\ SeqIs(f, e.o.rest, At(R.rem))                      \* what next() still yields afterwards (nth / nth_back)
+                  \* every reference the call yields from channels_mut is overwritten with v: v lands in those channels only
+                  /\ SeqIs(f, e.o.after, IF e.a.it = "mut"
+                                           THEN [c \in 1..n |-> IF \E q \in 1..Len(R.items) : R.items[q] = c THEN v ELSE x[c]]
+                                           ELSE x)
        [] e.ev = "f_channels_mut" ->              \* the k-th reference is channel k: read, then overwritten with ys[k]
             /\ WFSeq(f, e.a.x, n) /\ WFSeq(f, e.a.ys, n)
             /\ SeqIs(f, e.o.seen, FVal(f, e.a.x))
@@ -222,7 +249,7 @@ OkInPlace(e) ==
 ---------------------------------------------------------------------------
 SampleEvs == {"s_add_amp", "s_mul_amp", "s_to_signed", "s_to_float", "s_consts"}
 FrameEvs  == {"f_offset", "f_scale", "f_add", "f_mul", "f_to_signed", "f_to_float", "f_equilibrium", "f_map", "f_zip_map",
-              "f_from_fn", "f_from_samples", "f_channels", "f_channels_mut", "f_channel"}
+              "f_from_fn", "f_from_samples", "f_channels", "f_channels_mut", "f_channel", "f_iter"}
 Ok(e) == CASE e.ev = "reset"       -> e.comp \in {"frame", "slice"} /\ e.r.k = "unit"
            [] e.ev \in SampleEvs   -> OkSample(e)
            [] e.ev \in FrameEvs    -> OkFrame(e)
